@@ -2,9 +2,15 @@
    written from the public standards.  One line of the trusted base each (DESIGN 3, "External
    code"): they stand in for the md-5, sha2 and aes crates and are differential-tested through
    lopdf on every run.  [aes_encrypt_block key] computes the key schedule once per key. *)
-From LV Require Import Base.Bytes Model.Crypto.Word Model.Crypto.MD5 Model.Crypto.SHA2 Model.Crypto.AES
+From LV Require Import Base.Bytes Model.Obj Model.Crypto.Word Model.Crypto.MD5 Model.Crypto.SHA2 Model.Crypto.AES
   Model.Crypto.Handler.
 
-Definition concrete : prims :=
+(* [dec] = Stream::decompress (see [p_decompress]); the hashes and the block cipher are the Gallina ones *)
+Definition concrete_with (dec : dict -> bytes -> option (dict * bytes)) : prims :=
   {| p_md5 := md5; p_sha256 := sha256; p_sha384 := sha384; p_sha512 := sha512;
-     p_aes_enc := aes_encrypt_block; p_aes_dec := aes_decrypt_block |}.
+     p_aes_enc := aes_encrypt_block; p_aes_dec := aes_decrypt_block; p_decompress := dec |}.
+
+(* the instance the runners execute: no filter model -- Stream::decompress fails on a stream that has no Filter
+   (filters() = Err), which is all this instance is asked about: the C05 runner answers "unmodelled" itself when a
+   stream of Type ObjStm carries a Filter *)
+Definition concrete : prims := concrete_with (fun _ _ => None).
